@@ -214,6 +214,9 @@ pub fn run(ctx: &mut Ctx) {
         .flat_map(|&(dim, lo, hi)| (lo..=hi).map(move |n| GenCase { dim, max_size: n }))
         .collect();
     ctx.run_par(&SUB_IRREDUNDANT, beyond, Some("the listed (dim, max_size) pairs beyond the brute-force bound"));
+    // dimension 1 far beyond that: sizes across 64 and 128 chambers (paths and cycles; two or three sets per size)
+    let long: Vec<GenCase> = [63usize, 64, 65, 66, 80].iter().cloned().chain(if t == Tier::Thorough { vec![127, 128, 129, 130, 200, 260] } else { vec![129] }).map(|n| GenCase { dim: 1, max_size: n }).collect();
+    ctx.run_par(&SUB_IRREDUNDANT, long, Some("dimension 1 with size bounds across 64 and 128 (thorough: 256) chambers"));
 
     ctx.layer("random");
     let n = t.pick(20_000u32, 300_000u32);
